@@ -12,7 +12,8 @@
 import JSV.Proofs.ResBase
 namespace JSV
 namespace Go
-namespace RInv
+namespace RTot
+open RInv
 open Uri
 
 theorem bind_ne_fuel {α β} {x : Res α} {f : α → Res β} (hx : x ≠ .fuel) (hf : ∀ a, x = .ok a → f a ≠ .fuel) :
@@ -511,6 +512,6 @@ theorem resolve_ne_fuel (env : Env) (fuel : Nat) (root : NodeId) (base : String)
       omega
     · split <;> simp
 
-end RInv
+end RTot
 end Go
 end JSV
